@@ -10,4 +10,5 @@ CONSTANTS
   BugOptionalDropsNone = FALSE
 INVARIANT AnnotationRoutesAgree
 INVARIANT NoRouteRaises
+INVARIANT EmitDone
 CHECK_DEADLOCK FALSE
